@@ -69,7 +69,9 @@ def results_equal(stmt, ri, rm, mode):
     """mode: dict(normalise=bool, closed=bool)"""
     cmd = stmt.split()[0]
     if "errorsonly=1" in stmt:
-        return (ri[0] == "err") == (rm[0] == "err") and (ri[0] != "err" or ri == rm)
+        # C15 only asks whether the closed-side mismatch is reported
+        cm = ("err", "ClosedMismatch")
+        return (ri == cm) == (rm == cm)
     if rm == ("err", "Undefined"):
         # the statistic does not exist (empty value set / no finite defined piece): the implementation
         # either raises or answers NaN; the properties do not say which
